@@ -255,7 +255,7 @@ Call ==                  \* the rule's functor: children's values in right-side 
              /\ vals' = Append(rest, IF NoVal(RuleOf(r).l) THEN -2 ELSE id)
              /\ ev' = IF IsDflt(r) THEN <<"dcall", id, args, [i \in 1..n |-> lc(raw[i])[1]], [i \in 1..n |-> lc(raw[i])[2]], 0>>
                       \* C13: a functor attached with >>= receives the caller's very object (identity 1), const iff the caller's is
-                      ELSE IF IsCtx(r) THEN <<"ccall", r, id, args, [i \in 1..n |-> lc(raw[i])[1]], [i \in 1..n |-> lc(raw[i])[2]], 1, IF opt.cat = 2 THEN 1 ELSE 0, 0>>
+                      ELSE IF IsCtx(r) THEN <<"ccall", r, id, args, [i \in 1..n |-> lc(raw[i])[1]], [i \in 1..n |-> lc(raw[i])[2]], 1, IF opt.cat \in {2, 7} THEN 1 ELSE 0, 0>>
                       \* (last component: number of values handed over as lvalues - every value must arrive movable, i.e. 0)
                       ELSE IF GR(g).obsC THEN <<"call", r, id, args, [i \in 1..n |-> lc(raw[i])[1]], [i \in 1..n |-> lc(raw[i])[2]], 0>>
                       ELSE <<"tau">>
